@@ -592,18 +592,20 @@ func runC12(c *an.Ctx, p *an.Prog, thorough bool) {
 	if whs := p.Method("/store", "UserHash", "writeHashStr"); need(c, "C12.3", whs, "store.(*UserHash).writeHashStr") {
 		var bad []string
 		n := 0
-		for _, ci := range an.CallsTo(whs, "fmt.Sprintf") {
+		for _, ci := range an.CallsTo(whs, "io.WriteString", "(*os.File).WriteString", "(*os.File).Write", "fmt.Fprintf") {
 			an.EnumPaths(whs, nil, ci, func(s *an.PathState) {
 				a := s.CallArgs(ci)
-				if f, _ := a[0].ConstString(); !strings.Contains(f, "%d:%d") {
+				_, parts, ok := writtenText(an.CalleeName(ci), a)
+				if !ok {
 					return
 				}
+				fargs, ok := matchParts(parts, "%s:%d:%d:%s\n")
 				n++
-				va := a[1]
-				if va.Op != "varargs" || len(va.Args) != 4 {
+				if !ok || len(fargs) != 4 {
 					bad = append(bad, "record line has unexpected operands")
 					return
 				}
+				va := &an.Term{Op: "varargs", Args: fargs}
 				pid := va.Args[2]
 				if !(pid.Op == "load" && isStoreField(pid.Args[0], "Dir", "Default")) {
 					bad = append(bad, "written parameter-set id is "+pid.K+", not store.Default")
